@@ -216,6 +216,19 @@ func cmdCheck(args []string) int {
 	for _, short := range claim.Functions {
 		w.claimed[fullKey(short)] = true
 	}
+	// which other claims check which functions (for the evidence: callee contracts relied on across claims)
+	w.provedBy = map[string][]string{}
+	if others, _ := filepath.Glob(filepath.Join(*verif, "claims", "C*.json")); true {
+		sort.Strings(others)
+		for _, cf := range others {
+			var oc Claim
+			if d, err := os.ReadFile(cf); err == nil && json.Unmarshal(d, &oc) == nil && oc.ID != claim.ID {
+				for _, short := range oc.Functions {
+					w.provedBy[fullKey(short)] = append(w.provedBy[fullKey(short)], oc.ID)
+				}
+			}
+		}
+	}
 	for _, short := range claim.Functions {
 		if *only != "" && !strings.Contains(short, *only) {
 			continue
